@@ -2325,6 +2325,7 @@ rfbProcessClientNormalMessage(rfbClientPtr cl)
      */
     case rfbSetEncodings:
     {
+        rfbBool hadCursorShapeUpdates;
 
         if ((n = rfbReadExact(cl, ((char *)&msg) + 1,
                            sz_rfbSetEncodingsMsg - 1)) <= 0) {
@@ -2346,6 +2347,7 @@ rfbProcessClientNormalMessage(rfbClientPtr cl)
             lastPreferredEncoding = cl->preferredEncoding;
 
         /* Reset all flags to defaults (allows us to switch between PointerPos and Server Drawn Cursors) */
+        hadCursorShapeUpdates = cl->enableCursorShapeUpdates;
         cl->preferredEncoding=-1;
         cl->useCopyRect              = FALSE;
         cl->useNewFBSize             = FALSE;
@@ -2621,6 +2623,10 @@ rfbProcessClientNormalMessage(rfbClientPtr cl)
 		 cl->host);
 	  cl->enableCursorPosUpdates = FALSE;
 	}
+
+	/* the client no longer draws the cursor itself: it has to be painted for it */
+	if (hadCursorShapeUpdates && !cl->enableCursorShapeUpdates)
+	  rfbRedrawAfterHideCursor(cl,NULL);
 
         return;
     }
